@@ -478,14 +478,27 @@ def wl_unknown(ctx, rng, i):
     case = {"version": ver, "input": o, "vouched_for_by_new_object_extension": vouched}
     for rname, fn in (("parse-dict", lambda: stix2.parse(copy.deepcopy(o), allow_custom=False)), ("parse-text", lambda: stix2.parse(json.dumps(o), allow_custom=False)),
                       ("parse-dict/version", lambda: stix2.parse(copy.deepcopy(o), allow_custom=False, version=ver)),
-                      ("bundle-member", lambda: stix2.parse({"type": "bundle", "id": "bundle--" + u, "objects": [copy.deepcopy(o)]}, allow_custom=False))):
+                      ("bundle-member", lambda: stix2.parse({"type": "bundle", "id": "bundle--" + u, "objects": [copy.deepcopy(o)]}, allow_custom=False)),
+                      ("bundle-member/text", lambda: stix2.parse(json.dumps({"type": "bundle", "id": "bundle--" + u, "objects": [o]}), allow_custom=False)),
+                      ("bundle-constructor", lambda: (stix2.v21 if ver == "2.1" else stix2.v20).Bundle(objects=[copy.deepcopy(o)])),
+                      ("bundle-constructor/after-a-registered-member", lambda: (stix2.v21 if ver == "2.1" else stix2.v20).Bundle(objects=[
+                          dict({"type": "identity", "id": "identity--" + u, "created": "2020-01-01T00:00:00.000Z", "modified": "2020-01-01T00:00:00.000Z", "name": "n", "identity_class": "individual"},
+                               **({"spec_version": "2.1"} if ver == "2.1" else {})), copy.deepcopy(o)]))):
         st, r = run(fn)
         ctx.ev()
         ctx.count("unknown_type_attempts")
         ctx.nontrivial("unknown", ver, variant, key.split("--")[0], json.dumps(body), rname)
-        if st == "returned" and not vouched:
-            ctx.violation("custom-admitted-in-strict-mode:unregistered-type", "an object of an unregistered type was passed through by %s with customisation disallowed (extensions: %s)" % (rname, json.dumps(o.get("extensions"))),
+        # the pass-through hands the caller of parse() a plain dictionary, which is no object; a bundle is one, and what it holds is
+        # its content: as a member the unregistered type is custom content whatever vouches for it
+        if st == "returned" and (not vouched or rname.startswith("bundle")):
+            ctx.violation("custom-admitted-in-strict-mode:unregistered-type" + (":vouched-for-bundle-member" if vouched else ""),
+                          "an object of an unregistered type was passed through by %s with customisation disallowed (extensions: %s)" % (rname, json.dumps(o.get("extensions"))),
                           dict(case, entry_point=rname))
+    # ... and a bundle that was allowed to take it says so
+    st, lax = run(lambda: stix2.parse({"type": "bundle", "id": "bundle--" + u, "objects": [copy.deepcopy(o)]}, allow_custom=True))
+    if st == "returned" and hasattr(lax, "serialize"):
+        ctx.count("bundles_with_unregistered_member_flag_judged")
+        flag_vs_strict(ctx, ver, "bundle", lax, "bundle-member-of-unregistered-type" + ("/vouched" if vouched else ""), "parse(allow_custom=True)", case)
 
 
 def flag_vs_strict(ctx, ver, t, obj, site, route, case):
@@ -529,6 +542,24 @@ def wl_toplevel(ctx, rng, i):
     reg = gcustom.ensure_registered()
     cls = cls_for("2.1", o["type"])
     tl_names = [n for n in ("rank", "seen_at", "aliases", "grade", "graded_by", "zone", "area") if n in o]
+    # a property of the OTHER registered toplevel extension, which the object does not carry, is custom content on it -- whatever
+    # objects carrying both extensions this process has made before (every seventh case makes some, in either order)
+    for have, foreign, val in (("a", "grade", 3), ("b", "rank", 7)):
+        o2 = gcustom.toplevel21(g, have)
+        o2.pop("revoked", None)
+        o2[foreign] = val
+        case2 = {"version": "2.1", "site": "toplevel-extension:property-of-another-registered-extension", "input": o2, "cases_before_in_this_process": ctx.counters.get("foreign_toplevel_probes", 0)}
+        ctx.count("foreign_toplevel_probes")
+        for rname, fn in (("parse-dict", lambda: stix2.parse(copy.deepcopy(o2), allow_custom=False)), ("constructor", lambda: cls(**copy.deepcopy(o2)))):
+            st, r = run(fn)
+            ctx.ev()
+            if st == "returned":
+                ctx.violation("custom-admitted-in-strict-mode:property-of-another-toplevel-extension", "%s accepted '%s' (a property of a registered toplevel extension the object does not carry) with customisation disallowed" % (rname, foreign),
+                              dict(case2, entry_point=rname))
+        st, lax = run(lambda: stix2.parse(copy.deepcopy(o2), allow_custom=True))
+        ctx.ev()
+        if st == "returned" and hasattr(lax, "serialize") and not flag_of(lax):
+            ctx.violation("custom-content-not-flagged:property-of-another-toplevel-extension", "has_custom is False on an object with '%s', a property of a registered toplevel extension it does not carry" % foreign, case2)
 
     def as_instances():
         kw = copy.deepcopy(o)
